@@ -348,6 +348,7 @@ class MultiTypeMap(dict):
         funcs.reverse()
 
         parents = []
+        entries = []
         for group, (func, codes) in zip(results, funcs):
             tups = (
                 [obj_t_tup]
@@ -360,10 +361,16 @@ class MultiTypeMap(dict):
                 break
             else:
                 for tup in tups:
-                    self[tup] = func
+                    entries.append((tup, func))
             if not codes:
                 break
             parents = codes
+
+        # The entry for obj_t_tup itself is stored last: as soon as it is
+        # visible (to another thread, or after an interrupt), the entries
+        # that call_next needs are guaranteed to be there as well.
+        for tup, func in reversed(entries):
+            self[tup] = func
 
         return True
 
